@@ -1266,4 +1266,201 @@ theorem compound_cuboids_project_optimal {B : Type} (boxCost : B → K) (p : V3 
   composite_project_optimal boxCost (fun d => posedCuboidProj sq d.1 p) (fun d q => posedCuboidMem sq d.1 q) p t
     (fun d => (posedCuboid_nearest sq d.1 p d.2.1 d.2.2).1) (fun d q hq => (posedCuboid_nearest sq d.1 p d.2.1 d.2.2).2 q hq) hlb
 
+/-! ## Aabb / Cuboid feature ids, 2-D (`Face(i)`, `i < 2`: `+` edge of axis `i`; `Face(i+2)`: `-` edge; `Vertex(id)`: bit `i` set ⇔ `-` side) -/
+
+def featPost2 {K : Type} [Num K] (mins maxs ls shift : V2 K) : Feat :=
+  let z0 := neq shift.x 0; let z1 := neq shift.y 0
+  let nzero := (if z0 then 1 else 0) + (if z1 then 1 else 0)
+  let lastNotZero := if !z1 then 1 else 0
+  if nzero = 2 then aabbFeature2.go mins maxs ls 2 0
+  else
+    let c := V2.center mins maxs
+    if nzero = 1 then
+      if ls.get lastNotZero < c.get lastNotZero then Feat.face (lastNotZero + 2) else Feat.face lastNotZero
+    else
+      let id := (if ls.x < c.x then 1 else 0) + (if ls.y < c.y then 2 else 0)
+      Feat.vertex id
+
+theorem aabbFeature2_eq_post (mins maxs pt : V2 K) :
+    letI := fieldNum K sq
+    ∀ r, r = aabbDoProject2 mins maxs pt false →
+    aabbFeature2 mins maxs pt = (⟨r.1, r.2.1⟩, featPost2 mins maxs r.2.1 r.2.2) := by
+  letI := fieldNum K sq
+  intro r hr
+  unfold aabbFeature2
+  rw [← hr]
+  unfold featPost2
+  dsimp only
+  generalize ((if neq r.2.2.x 0 = true then 1 else 0) + if neq r.2.2.y 0 = true then 1 else 0 : Nat) = n
+  generalize (if (!neq r.2.2.y 0) = true then 1 else 0 : Nat) = j
+  generalize ((if r.2.1.x < (mins.center maxs).x then 1 else 0) + if r.2.1.y < (mins.center maxs).y then 2 else 0 : Nat) = id
+  split_ifs <;> rfl
+
+/-- **the feature contains the point** (2-D box) -/
+def FeatContains2 (lo hi : V2 K) (f : Feat) (x : V2 K) : Prop :=
+  match f with
+  | .face 0 => hi.x - ((mkRat 1 4503599627370496 : ℚ) : K) ≤ x.x
+  | .face 1 => hi.y - ((mkRat 1 4503599627370496 : ℚ) : K) ≤ x.y
+  | .face 2 => x.x ≤ lo.x + ((mkRat 1 4503599627370496 : ℚ) : K)
+  | .face 3 => x.y ≤ lo.y + ((mkRat 1 4503599627370496 : ℚ) : K)
+  | .face _ => False
+  | .vertex id => id < 4 ∧ x.x = sideOf lo.x hi.x (id % 2 = 1) ∧ x.y = sideOf lo.y hi.y ((id / 2) % 2 = 1)
+  | .edge _ => False
+  | .unknown => False
+
+private theorem id_bits2 (b0 b1 : Prop) [Decidable b0] [Decidable b1] :
+    ((if b0 then 1 else 0) + (if b1 then 2 else 0) : Nat) < 4 ∧
+    ((((if b0 then 1 else 0) + (if b1 then 2 else 0) : Nat) % 2 = 1) ↔ b0) ∧
+    (((((if b0 then 1 else 0) + (if b1 then 2 else 0) : Nat) / 2) % 2 = 1) ↔ b1) := by
+  by_cases h0 : b0 <;> by_cases h1 : b1 <;> simp [h0, h1]
+
+theorem featPost2_contains (lo hi ls sh : V2 K) (hok : BoxOk2 lo hi) (hm : BoxMem2 lo hi ls)
+    (hx : sh.x ≠ 0 → ls.x = lo.x ∨ ls.x = hi.x) (hy : sh.y ≠ 0 → ls.y = lo.y ∨ ls.y = hi.y)
+    (hall : sh.x = 0 → sh.y = 0 → (ls.x = hi.x ∨ ls.x = lo.x ∨ ls.y = hi.y ∨ ls.y = lo.y)) :
+    letI := fieldNum K sq
+    FeatContains2 lo hi (featPost2 lo hi ls sh) ls := by
+  letI := fieldNum K sq
+  have he := eps_pos (K := K)
+  obtain ⟨ok1, ok2⟩ := hok
+  obtain ⟨⟨mx1, mx2⟩, ⟨my1, my2⟩⟩ := hm
+  have hcx : (V2.center lo hi).x = (lo.x + hi.x) * ((mkRat 1 2 : ℚ) : K) := by simp only [V2.center, V2.add, V2.smul, fieldNum_lit]
+  have hcy : (V2.center lo hi).y = (lo.y + hi.y) * ((mkRat 1 2 : ℚ) : K) := by simp only [V2.center, V2.add, V2.smul, fieldNum_lit]
+  have sx := fun h => side_of_center lo.x hi.x ls.x ok1 (hx h)
+  have sy := fun h => side_of_center lo.y hi.y ls.y ok2 (hy h)
+  rw [← hcx] at sx; rw [← hcy] at sy
+  obtain ⟨ib, i0, i1⟩ := id_bits2 (ls.x < (V2.center lo hi).x) (ls.y < (V2.center lo hi).y)
+  unfold featPost2
+  by_cases z0 : sh.x = 0 <;> by_cases z1 : sh.y = 0
+  · have n0 := (neq_zero_iff sq _).mpr z0; have n1 := (neq_zero_iff sq _).mpr z1
+    simp only [n0, n1, if_true, Nat.reduceAdd, aabbFeature2.go, V2.get, eps, fieldNum_lit]
+    simp only [Nat.reduceEqDiff, if_true, if_false, Nat.zero_add, Nat.reduceAdd, OfNat.ofNat_ne_zero, OfNat.ofNat_ne_one, one_ne_zero]
+    have := hall z0 z1
+    split_ifs with c1 c2 c3 c4 <;> simp only [FeatContains2] <;> first | assumption | skip
+    exfalso
+    push Not at c1 c2 c3 c4
+    rcases this with e | e | e | e <;> linarith
+  · have n0 := (neq_zero_iff sq _).mpr z0; have n1 := neq_false_of_ne sq _ z1
+    simp only [n0, n1, if_true, if_false, Bool.false_eq_true, Bool.not_true, Bool.not_false, Nat.reduceAdd, Nat.reduceEqDiff, V2.get, Nat.zero_add, Nat.add_zero, OfNat.ofNat_ne_zero, OfNat.ofNat_ne_one, one_ne_zero, zero_ne_one]
+    have hs := sy z1
+    split_ifs with c
+    · have e : ls.y = lo.y := hs.trans (by unfold sideOf; exact if_pos c)
+      simp only [FeatContains2]; linarith
+    · have e : ls.y = hi.y := hs.trans (by unfold sideOf; exact if_neg c)
+      simp only [FeatContains2]; linarith
+  · have n0 := neq_false_of_ne sq _ z0; have n1 := (neq_zero_iff sq _).mpr z1
+    simp only [n0, n1, if_true, if_false, Bool.false_eq_true, Bool.not_true, Bool.not_false, Nat.reduceAdd, Nat.reduceEqDiff, V2.get, Nat.zero_add, Nat.add_zero, OfNat.ofNat_ne_zero, OfNat.ofNat_ne_one, one_ne_zero, zero_ne_one]
+    have hs := sx z0
+    split_ifs with c
+    · have e : ls.x = lo.x := hs.trans (by unfold sideOf; exact if_pos c)
+      simp only [FeatContains2]; linarith
+    · have e : ls.x = hi.x := hs.trans (by unfold sideOf; exact if_neg c)
+      simp only [FeatContains2]; linarith
+  · have n0 := neq_false_of_ne sq _ z0; have n1 := neq_false_of_ne sq _ z1
+    simp only [n0, n1, if_true, if_false, Bool.false_eq_true, Bool.not_true, Bool.not_false, Nat.reduceAdd, Nat.reduceEqDiff, V2.get, Nat.zero_add, Nat.add_zero, OfNat.ofNat_ne_zero, OfNat.ofNat_ne_one, one_ne_zero, zero_ne_one]
+    simp only [FeatContains2]
+    exact ⟨ib, (sx z0).trans (sideOf_congr _ _ _ _ i0), (sy z1).trans (sideOf_congr _ _ _ _ i1)⟩
+
+private theorem box_shift_zero2 (lo hi p : V2 K) (hok : BoxOk2 lo hi) :
+    letI := fieldNum K sq
+    (((lo.sub p).sup V2.zero).sub ((p.sub hi).sup V2.zero)).isZero = true ↔ BoxMem2 lo hi p := by
+  letI := fieldNum K sq
+  simp only [V2.isZero, V2.sub, V2.sup, V2.zero, fieldNum_nmax, Bool.and_eq_true, neq_zero_iff, BoxMem2]
+  rw [(clamp_shift lo.x hi.x p.x hok.1).1, (clamp_shift lo.y hi.y p.y hok.2).1]
+
+private theorem aabb2_do_hollow (lo hi p : V2 K) (hok : BoxOk2 lo hi) (hm : BoxMem2 lo hi p) :
+    letI := fieldNum K sq
+    aabbDoProject2 lo hi p false = (true, ⟨lo.x, p.y⟩, ⟨lo.x - p.x, 0⟩) ∨
+    aabbDoProject2 lo hi p false = (true, ⟨hi.x, p.y⟩, ⟨hi.x - p.x, 0⟩) ∨
+    aabbDoProject2 lo hi p false = (true, ⟨p.x, lo.y⟩, ⟨0, lo.y - p.y⟩) ∨
+    aabbDoProject2 lo hi p false = (true, ⟨p.x, hi.y⟩, ⟨0, hi.y - p.y⟩) := by
+  letI := fieldNum K sq
+  have hZ := (box_shift_zero2 sq lo hi p hok).mpr hm
+  simp only [aabbDoProject2, hZ, Bool.not_true, Bool.false_eq_true, if_false, aabbStep_eq']
+  simp only [V2.sub, decide_true, if_true]
+  by_cases h1 : max (lo.x - p.x) (p.x - hi.x) < max (lo.y - p.y) (p.y - hi.y)
+  · simp only [h1, decide_true, if_true, Option.getD_some]
+    by_cases f : p.y - hi.y ≤ lo.y - p.y
+    · have e := max_eq_left f
+      simp only [f, decide_true, if_true]
+      refine (fun h => Or.inr (Or.inr (Or.inl h))) ?_
+      refine Prod.ext rfl (Prod.ext (v2_ext ?_ ?_) (v2_ext ?_ ?_)) <;> simp [V2.add, V2.set, V2.zero, e]
+    · simp only [f, decide_false, Bool.false_eq_true, if_false]
+      push Not at f
+      have e := max_eq_right f.le
+      refine (fun h => Or.inr (Or.inr (Or.inr h))) ?_
+      refine Prod.ext rfl (Prod.ext (v2_ext ?_ ?_) (v2_ext ?_ ?_)) <;> simp [V2.add, V2.set, V2.zero, e]
+  · simp only [h1, decide_false, Bool.false_eq_true, if_false, Option.getD_some]
+    by_cases f : p.x - hi.x ≤ lo.x - p.x
+    · have e := max_eq_left f
+      simp only [f, decide_true, if_true]
+      refine Or.inl ?_
+      refine Prod.ext rfl (Prod.ext (v2_ext ?_ ?_) (v2_ext ?_ ?_)) <;> simp [V2.add, V2.set, V2.zero, e]
+    · simp only [f, decide_false, Bool.false_eq_true, if_false]
+      push Not at f
+      have e := max_eq_right f.le
+      refine (fun h => Or.inr (Or.inl h)) ?_
+      refine Prod.ext rfl (Prod.ext (v2_ext ?_ ?_) (v2_ext ?_ ?_)) <;> simp [V2.add, V2.set, V2.zero, e]
+
+/-- **`Aabb::project_local_point_and_get_feature`** (2-D): the projection is that of `project_local_point(pt, false)`, and the
+reported feature — never `Unknown` — contains it. -/
+theorem aabb2_feature_spec (lo hi p : V2 K) (hok : BoxOk2 lo hi) :
+    letI := fieldNum K sq
+    (aabbFeature2 lo hi p).1 = aabbProject2 lo hi p false ∧
+    FeatContains2 lo hi (aabbFeature2 lo hi p).2 (aabbFeature2 lo hi p).1.pt := by
+  letI := fieldNum K sq
+  rw [aabbFeature2_eq_post sq lo hi p _ rfl]
+  refine ⟨rfl, ?_⟩
+  simp only []
+  by_cases hm : BoxMem2 lo hi p
+  · obtain ⟨⟨mx1, mx2⟩, ⟨my1, my2⟩⟩ := hm
+    obtain ⟨ox, oy⟩ := hok
+    rcases aabb2_do_hollow sq lo hi p ⟨ox, oy⟩ ⟨⟨mx1, mx2⟩, ⟨my1, my2⟩⟩ with e | e | e | e
+    · rw [e]
+      exact featPost2_contains sq lo hi _ _ ⟨ox, oy⟩
+        ⟨⟨by first | exact le_refl _ | assumption, by first | exact le_refl _ | assumption⟩, ⟨by first | exact le_refl _ | assumption, by first | exact le_refl _ | assumption⟩⟩
+        (fun _ => Or.inl rfl) (fun h => absurd rfl h) (fun _ _ => Or.inr (Or.inl rfl))
+    · rw [e]
+      exact featPost2_contains sq lo hi _ _ ⟨ox, oy⟩
+        ⟨⟨by first | exact le_refl _ | assumption, by first | exact le_refl _ | assumption⟩, ⟨by first | exact le_refl _ | assumption, by first | exact le_refl _ | assumption⟩⟩
+        (fun _ => Or.inr rfl) (fun h => absurd rfl h) (fun _ _ => Or.inl rfl)
+    · rw [e]
+      exact featPost2_contains sq lo hi _ _ ⟨ox, oy⟩
+        ⟨⟨by first | exact le_refl _ | assumption, by first | exact le_refl _ | assumption⟩, ⟨by first | exact le_refl _ | assumption, by first | exact le_refl _ | assumption⟩⟩
+        (fun h => absurd rfl h) (fun _ => Or.inl rfl) (fun _ _ => Or.inr (Or.inr (Or.inr (rfl))))
+    · rw [e]
+      exact featPost2_contains sq lo hi _ _ ⟨ox, oy⟩
+        ⟨⟨by first | exact le_refl _ | assumption, by first | exact le_refl _ | assumption⟩, ⟨by first | exact le_refl _ | assumption, by first | exact le_refl _ | assumption⟩⟩
+        (fun h => absurd rfl h) (fun _ => Or.inr rfl) (fun _ _ => Or.inr (Or.inr (Or.inl rfl)))
+  · have hZ : (((lo.sub p).sup V2.zero).sub ((p.sub hi).sup V2.zero)).isZero = false := by
+      rw [← Bool.not_eq_true]; exact fun h => hm ((box_shift_zero2 sq lo hi p hok).mp h)
+    have hr : aabbDoProject2 lo hi p false
+        = (false, p.add (((lo.sub p).sup V2.zero).sub ((p.sub hi).sup V2.zero)), ((lo.sub p).sup V2.zero).sub ((p.sub hi).sup V2.zero)) := by
+      simp only [aabbDoProject2, hZ, Bool.not_false, if_true]
+    rw [hr]
+    obtain ⟨x1, x2, x3, _⟩ := clamp_shift lo.x hi.x p.x hok.1
+    obtain ⟨y1, y2, y3, _⟩ := clamp_shift lo.y hi.y p.y hok.2
+    refine featPost2_contains sq lo hi _ _ hok ?_ ?_ ?_ ?_
+    · simp only [V2.sub, V2.sup, V2.zero, V2.add, fieldNum_nmax, BoxMem2]
+      exact ⟨⟨x2, x3⟩, ⟨y2, y3⟩⟩
+    · simp only [V2.sub, V2.sup, V2.zero, V2.add, fieldNum_nmax]
+      exact clamp_face lo.x hi.x p.x hok.1
+    · simp only [V2.sub, V2.sup, V2.zero, V2.add, fieldNum_nmax]
+      exact clamp_face lo.y hi.y p.y hok.2
+    · simp only [V2.sub, V2.sup, V2.zero, V2.add, fieldNum_nmax]
+      intro a b
+      exfalso
+      exact hm ⟨x1.mp a, y1.mp b⟩
+
+/-- **`Cuboid::project_local_point_and_get_feature`** (2-D) -/
+theorem cub2_feature_spec (s : Cuboid2 K) (p : V2 K) (h : CubOk2 s) :
+    letI := fieldNum K sq
+    (s.projectFeature p).1 = s.project p false ∧
+    FeatContains2 ⟨-s.he.x, -s.he.y⟩ s.he (s.projectFeature p).2 (s.projectFeature p).1.pt := by
+  obtain ⟨a, b⟩ := h
+  exact aabb2_feature_spec sq _ _ p ⟨by show -s.he.x ≤ s.he.x; linarith, by show -s.he.y ≤ s.he.y; linarith⟩
+
+example : FeatContains2 (⟨-4, -4⟩ : V2 ℚ) ⟨4, 4⟩ (Feat.face 1) ⟨0, 4⟩ ∧
+    FeatContains2 (⟨-1, -2⟩ : V2 ℚ) ⟨1, 2⟩ (Feat.vertex 2) ⟨1, -2⟩ := by
+  simp only [FeatContains2, sideOf]; norm_num
+
 end C05
